@@ -442,7 +442,7 @@ def helper_cases(ctx, prefix=""):
         return [Node("len", kids, k=1), Node("len", kids, k=2), Node("len", kids, k=4), Node("len", kids, k=8),
                 Node("rec", kids, version=r.choice([0x0301, 0x0303, 0xffff, 0]), content=r.choice([20, 21, 22, 23, 255])),
                 Node("rec", kids), Node("ext", kids, type=r.choice([0, 11, 16, 0xffff, r.getrandbits(16)])),
-                Node("dhcpopt", kids, code=r.choice([1, 12, 53, 61, 254, r.randint(1, 254)])),
+                Node("dhcpopt", kids, code=r.choice([1, 12, 53, 61, 254, 0, 255, r.randint(1, 254)])),
                 Node("answer", kids, labels=[b"a", b"bc"], atype=r.choice([1, 16, 28, 65535]), ttl=r.choice([0, 1, 2 ** 32 - 1])),
                 Node("answer", kids, labels=[b"x" * 63])]
     small = [0, 1, 2, 255, 256]
